@@ -46,6 +46,20 @@ theorem exec_liftStE {β} (f : St → St × Except Exc β) (c : Conv α) :
   rw [exec_bind, exec_liftSt]
   cases h : (f c.st).2 <;> simp [h] <;> rfl
 
+/-- `Quantity.unprefixed` always succeeds. -/
+theorem exec_unprefixedQty (q : Qty α) (c : Conv α) :
+    CM.exec (unprefixedQty q) c =
+      (.ok { mag := Mag.mul (Pfx.value (c.st.unit! q.unit).pfx) q.mag, unit := (c.st.unprefixedUnit q.unit).2 },
+       { c with st := (c.st.unprefixedUnit q.unit).1 }) := by
+  unfold unprefixedQty
+  rw [exec_bind]
+  unfold quantifyUnit
+  rw [exec_bind, exec_getSt]
+  simp only
+  rw [exec_bind, exec_liftSt]
+  simp only [exec_pure]
+
+
 end
 end Measured
 
